@@ -5,7 +5,7 @@ import math
 
 from rv import bridge, gen, solvercheck as SC, suite
 from rv.bridge import ALL, ANY
-from rv.core import Inconclusive
+from rv.core import Inconclusive, skippable
 from rv.refmodel import trees as RT
 from rv.refmodel.trees import T
 
@@ -34,7 +34,7 @@ META = {
 def plan(tier, seed):
     q = tier == "quick"
     specs = [{"kind": "enum", "i": i, "n": 8, "maxleaves": 6 if q else 7} for i in range(8)]
-    specs += [{"kind": "e2e", "i": i, "count": 6 if q else 64} for i in range(8 if q else 16)]
+    specs += [{"kind": "e2e", "i": i, "count": 12 if q else 64} for i in range(16)]
     return specs
 
 
@@ -266,6 +266,7 @@ def _plain(nested):
     return [_plain(c) for c in nested]
 
 
+@skippable
 def check_e2e(ctx, case):
     algo = case["algo"]
     kind = SC.kind_of(algo)
@@ -402,7 +403,14 @@ def random_poly_case(rng, algo, max_obj, max_sp):
             G, S = _give_names(G, "anc"), _give_names(S, "clade")
         if rng.random() < 0.5:
             G, S = recolour(rng, G), recolour(rng, S)
-        case = {"kind": "e2e", "algo": algo, "G": G, "S": S, "leafmap": lm, "costs": gen.random_cost(rng),
+        costs = gen.random_cost(rng)
+        if rng.random() < 0.25:
+            # forbidden events (infinite duplication and/or transfer cost): whether a refinement has any finite
+            # scenario then depends on its topology - the optimum is still the minimum over ALL refinements
+            costs = dict(costs, dup="inf")
+            if rng.random() < 0.7:
+                costs["hgt"] = "inf"
+        case = {"kind": "e2e", "algo": algo, "G": G, "S": S, "leafmap": lm, "costs": costs,
                 "syn": gen.random_syntenies(rng, list(lm), 3, ordered=ordered, consistent_p=1.0), "named": named}
         if ordered and named and rng.random() < 0.4:
             # prescribed root order (possibly with a family that no leaf carries): it must survive the refinement too.
